@@ -333,7 +333,8 @@ func (st *c04State) history(cs *c04Case) {
 	pal := c04Pals[cs.Pal]
 	st.z = render.Renderer{}
 	st.rect = rect
-	st.z.SetRasterizer(&st.ras, rect)
+	// the target is configured twice: another height first, the final rectangle only after Reset
+	st.z.SetRasterizer(&st.ras, image.Rect(1, 2, 20, 2+cs.Height+7))
 	if cs.Reused {
 		// the same Renderer rendered another graphic with the SAME palette before: every colour and
 		// number register, both selectors and the LOD are dirty when Reset is called
@@ -349,6 +350,7 @@ func (st *c04State) history(cs *c04Case) {
 		st.z.AbsQuadTo(1, 2, 3, 4)
 	}
 	st.z.Reset(ivg.DefaultViewBox, pal)
+	st.z.SetRasterizer(&st.ras, rect)
 	st.vm.Reset(pal)
 	calls := c04Calls(cs.Letters, cs.Height)
 	fail := func(key, what string) {
@@ -564,6 +566,30 @@ func (st *c04State) gradientOne(cbase, nbase, nstops, t int) {
 			if !st.probe(0, 16, func(key, what string) { fail("after-creg-write:"+key, what) }) {
 				return
 			}
+		}
+	}
+	// a blend works on the raw register bytes, whatever they encode: the gradient value (alpha 0)
+	// copied through a blend with transparent at t = 0 resp. t = 255, or halved at t = 128
+	{
+		gsel := uint8(cbase-1) & 63
+		var bc ivg.Color
+		switch (cbase + nbase + nstops) % 3 {
+		case 0:
+			bc = ivg.BlendColor(0x00, 0xc0|gsel, 0x7f)
+		case 1:
+			bc = ivg.BlendColor(0xff, 0x7f, 0xc0|gsel)
+		default:
+			bc = ivg.BlendColor(0x80, 0xc0|gsel, 0x7f)
+		}
+		follow := []rec.Call{
+			{M: rec.MSetCSel, Adj: uint8(cbase-2) & 63},
+			{M: rec.MSetCReg, C: bc},
+		}
+		for i := range follow {
+			st.applyBoth(&follow[i])
+		}
+		if !st.probe(0, 16, func(key, what string) { fail("through-blend:"+key, what) }) {
+			return
 		}
 	}
 	p := st.vm.StartPath(0, 16)
